@@ -208,6 +208,10 @@ def _run_tiff(case, td):
     rng = rng_for(*case["seed"])
     case = dict(case, named=True)
     im, kw, desc, sp = _make_image(case, rng, "float64", positive=True)
+    # value ranges: ordinary, very faint, low contrast on a large pedestal, large, straddling zero
+    off, scl = [(0.0, 1.0), (0.0, 3e-9), (1.0, 1e-6), (4.0e4, 2.5e4), (-5.0, 10.0), (0.0, 1.0)][int(case["id"].split("-")[-1]) % 6]
+    if scl != 1.0 or off != 0.0:
+        im = im.copy(data=off + scl * (im.values - 0.1) / 0.9)
     before = digest(im)
     p = os.path.join(td, "t.tif")
     depth, scaling = case["depth"], case["scaling"]
